@@ -145,7 +145,25 @@ func (e *Engine) replay(r *FnResult, o *Obligation, outDir string) map[string]in
 	for _, p := range r.Params {
 		terms = append(terms, p.Terms...)
 	}
-	vals, err := getValues(o.Query, terms, nil)
+	// prefer small models: bound slice capacities, relaxing the bound if that is not satisfiable
+	var vals map[string]string
+	var err error
+	for _, bound := range []uint64{16, 256, 1 << 16, 0} {
+		var small []string
+		if bound > 0 {
+			for _, p := range r.Params {
+				if _, ok := p.Type.Underlying().(*types.Slice); ok {
+					small = append(small, app("bvule", p.Terms[3], bvlit(bound, 64)), app("bvule", p.Terms[1], bvlit(bound, 64)))
+				} else if isString(p.Type) {
+					small = append(small, app("bvule", p.Terms[2], bvlit(bound, 64)), app("bvule", p.Terms[1], bvlit(bound, 64)))
+				}
+			}
+		}
+		vals, err = getValues(o.Query, terms, small)
+		if err == nil {
+			break
+		}
+	}
 	if err != nil {
 		rep["outcome"] = "not-attempted"
 		rep["reason"] = err.Error()
@@ -237,6 +255,7 @@ func (e *Engine) replay(r *FnResult, o *Obligation, outDir string) map[string]in
 	var t strings.Builder
 	t.WriteString("package " + pkg.Name() + "\n\nimport (\n\t\"bytes\"\n\t\"fmt\"\n\t\"testing\"\n)\n\nvar _ = bytes.Equal\n\n")
 	t.WriteString(g.helpers.String())
+	t.WriteString("func gvcSameSlice(a, b []byte) bool {\n\tif len(a) != len(b) {\n\t\treturn false\n\t}\n\tif cap(a) == 0 || cap(b) == 0 {\n\t\treturn (a == nil) == (b == nil)\n\t}\n\treturn &a[:1][0] == &b[:1][0]\n}\n\n")
 	t.WriteString("func gvcIte[T any](c bool, a, b T) T {\n\tif c {\n\t\treturn a\n\t}\n\treturn b\n}\n\n")
 	t.WriteString("func TestGvcReplay(t *testing.T) {\n")
 	t.WriteString(strings.Join(decls, "\n") + "\n")
@@ -277,7 +296,7 @@ func (e *Engine) replay(r *FnResult, o *Obligation, outDir string) map[string]in
 	ovb, _ := json.Marshal(ov)
 	ovFile := filepath.Join(work, "ov.json")
 	os.WriteFile(ovFile, ovb, 0o644)
-	cmd := exec.Command("bash", "-c", fmt.Sprintf("ulimit -v 8000000; cd %s && go test -tags verif -overlay %s -vet=off -timeout 60s -count=1 -run '^TestGvcReplay$' .%s 2>&1 | head -c 6000", e.repo, ovFile, dir))
+	cmd := exec.Command("bash", "-c", fmt.Sprintf("ulimit -v 8000000; cd %s && go test -tags verif -overlay %s -vet=off -timeout 60s -count=1 -v -run '^TestGvcReplay$' .%s 2>&1 | head -c 6000", e.repo, ovFile, dir))
 	cmd.Env = append(os.Environ(), "GOFLAGS=-mod=mod", "GOPROXY=off", "GOSUMDB=off", "GOTOOLCHAIN=local")
 	var out bytes.Buffer
 	cmd.Stdout = &out
@@ -505,9 +524,6 @@ func (g *goGen) emitSpec(sf *SpecFn) {
 	body := sub.ex(sf.Body)
 	g.helpers.WriteString(sub.helpers.String())
 	g.helpers.WriteString(fmt.Sprintf("func gvcSpec_%s(%s) %s { return %s }\n\n", sf.Name, strings.Join(ps, ", "), sf.Ret.String(), body))
-	if !strings.Contains(g.helpers.String(), "func gvcSameSlice") {
-		g.helpers.WriteString("func gvcSameSlice(a, b []byte) bool {\n\tif len(a) != len(b) {\n\t\treturn false\n\t}\n\tif cap(a) == 0 || cap(b) == 0 {\n\t\treturn (a == nil) == (b == nil)\n\t}\n\treturn &a[:1][0] == &b[:1][0]\n}\n\n")
-	}
 }
 
 // quant: forall/exists over integer variables with range guards lo <= x && x < hi.
